@@ -1402,7 +1402,12 @@ class ProgramData:
                     raise RuntimeError("Program output should not contain an extension")
                 program_output_name = option_value
             elif option_name == "O":
-                optimize_level = int(option_value)
+                try:
+                    optimize_level = int(option_value)
+                except ValueError:
+                    raise RuntimeError("Invalid optimization level " + option_value)
+                if optimize_level not in cls._OPTIMIZE_LEVELS:
+                    raise RuntimeError("Invalid optimization level " + option_value)
             elif option_name in ["f", "flag"]:
                 if option_name == "f":
                     set_to = True
@@ -1415,7 +1420,9 @@ class ProgramData:
                         set_to = True
                         flag_name = option_value
                     else:
-                        flag_name, set_to = option_value.split("=")
+                        flag_name, set_to = option_value.split("=", 1)
+                        if set_to not in ["yes", "on", "no", "off"]:
+                            raise RuntimeError("Invalid value for flag " + flag_name + " (expected yes, on, no or off)")
                         set_to = set_to in ["yes", "on"]
                     option_value = flag_name
                     flag_name = flag_name.upper().replace("-", "_")
@@ -1433,7 +1440,10 @@ class ProgramData:
                 exit(0)
             elif option_name in ["d", "dump"]:
                 for i in option_value.split(","):
-                    cls._dump.append(DebugDumpable(i))
+                    try:
+                        cls._dump.append(DebugDumpable(i))
+                    except ValueError:
+                        raise RuntimeError("Unknown dump target " + i)
             elif option_name == "dump-prefix":
                 cls.dump_prefix = option_value
             elif option_name in ["t", "dry-run"]:
